@@ -85,14 +85,22 @@ class World:
         net = self.net
         try:
             k = op[0]
+            # every third construction call passes ALL its arguments by keyword (the documented parameter names)
+            self.kwcalls = getattr(self, "kwcalls", 0) + (k in ("node", "nodes", "link", "links", "origin", "dest", "path"))
+            bykw = self.kwcalls % 3 == 0
             if k == "node":
-                net.add_node(self.obj(op[1]))
+                net.add_node(node=self.obj(op[1])) if bykw else net.add_node(self.obj(op[1]))
             elif k == "nodes":
-                net.add_nodes(self.as_iterable([self.obj(t) for t in op[1]]))
+                it_ = self.as_iterable([self.obj(t) for t in op[1]])
+                net.add_nodes(nodes=it_) if bykw else net.add_nodes(it_)
             elif k == "link":
-                net.add_link(self.obj(op[1]), self.obj(op[2]), self.obj(op[3]))
+                if bykw:
+                    net.add_link(node_up=self.obj(op[1]), link=self.obj(op[2]), node_down=self.obj(op[3]))
+                else:
+                    net.add_link(self.obj(op[1]), self.obj(op[2]), self.obj(op[3]))
             elif k == "links":
-                net.add_links(self.as_iterable([(self.obj(a), self.obj(b), self.obj(c)) for (a, b, c) in op[1]]))
+                it_ = self.as_iterable([(self.obj(a), self.obj(b), self.obj(c)) for (a, b, c) in op[1]])
+                net.add_links(links=it_) if bykw else net.add_links(it_)
             elif k == "links_bad":          # a bulk call that fails half-way: the last tuple lacks its downstream node
                 net.add_links([(self.obj(a), self.obj(b), self.obj(c)) for (a, b, c) in op[1]] + [(self.obj(op[2][0]), self.obj(op[2][1]))])
             elif k == "nodes_bad":          # ... a None among the nodes
@@ -100,13 +108,24 @@ class World:
             elif k == "link_bad":           # ... add_link towards None
                 net.add_link(self.obj(op[1]), self.obj(op[2]), None)
             elif k == "origin":
-                net.add_origin(self.o[op[1]], self.obj(op[2]))
+                if bykw:
+                    net.add_origin(origin=self.o[op[1]], node=self.obj(op[2]))
+                else:
+                    net.add_origin(self.o[op[1]], self.obj(op[2]))
             elif k == "dest":
-                net.add_destination(self.d[op[1]], self.obj(op[2]))
+                if bykw:
+                    net.add_destination(destination=self.d[op[1]], node=self.obj(op[2]))
+                else:
+                    net.add_destination(self.d[op[1]], self.obj(op[2]))
             elif k == "path":
-                net.add_path([self.obj(t) for t in op[1]],
-                             origin=None if op[2] is None else self.o[op[2]],
-                             destination=None if op[3] is None else self.d[op[3]])
+                if bykw:
+                    net.add_path(path=[self.obj(t) for t in op[1]],
+                                 origin=None if op[2] is None else self.o[op[2]],
+                                 destination=None if op[3] is None else self.d[op[3]])
+                else:
+                    net.add_path([self.obj(t) for t in op[1]],
+                                 None if op[2] is None else self.o[op[2]],
+                                 None if op[3] is None else self.d[op[3]])
             elif k == "read":
                 return "ok", self.show_lookup(op[1], getattr(net, op[1]))
             return "ok", ""
